@@ -2,6 +2,8 @@
 //@ target: src/osu/performance/mod.rs
 //@ assume: A-BOUND: attribute counts (n_circles, n_sliders, n_spinners, n_large_ticks, max_combo) <= 2^20 each (check_suspicion rejects maps with > 500000 objects); provided hit results / combo / misses / passed_objects range over all of u32
 //@ assume: mods are GameMods::Legacy(bits) with all 2^32 bit patterns; lazer GameMods containers (BTreeMap) are not explored
+//@ attr: anchor=`fn accuracy(&self, origin: OsuScoreOrigin) -> f64 {` insert=`#[cfg_attr(kani, kani::ensures(|r: &f64| !r.is_nan() && *r >= 0.0 && *r <= 4294967296.0))]`
+//@ attr: anchor=`fn accuracy(&self, origin: OsuScoreOrigin) -> f64 {` insert=`#[cfg_attr(kani, kani::requires(self.n300 as u64 + self.n100 as u64 + self.n50 as u64 + self.misses as u64 <= 3 << 20))]`
 use super::*;
 use crate::any::HitResultPriority;
 
@@ -181,3 +183,115 @@ fn u7_osu_genstate_idem() {
     assert!(s1 == s2, "C12.5 second generate_state returns the same state");
     assert!(b == mid, "C12.5 second generate_state leaves the builder unchanged");
 }
+
+// ---- accuracy arms: the accuracy helper is under its own function contract and used modularly (stub_verified) -------
+
+fn any_origin() -> OsuScoreOrigin {
+    let k: u8 = kani::any();
+    let (a, b): (u32, u32) = (kani::any(), kani::any());
+    kani::assume(a <= 2 * CAP && b <= 2 * CAP);
+    match k % 3 {
+        0 => OsuScoreOrigin::Stable,
+        1 => OsuScoreOrigin::WithSliderAcc { max_large_ticks: a, max_slider_ends: b },
+        _ => OsuScoreOrigin::WithoutSliderAcc { max_large_ticks: a, max_small_ticks: b },
+    }
+}
+
+//@ obl: id=U7.osu.nocombo_accuracy.contract harness=u7_osu_nocombo_accuracy_contract props=C12,C09 tier=quick kind=proof
+//@ fns: NoComboState::accuracy
+//@ bound: loop-free; n300+n100+n50+misses <= 3*2^20, slider fields any u32, all three origins with maxima <= 2^21
+//@ clause: function contract of the accuracy helper used by the search arms: requires n300+n100+n50+misses <= 3*2^20 (the most a map within A-BOUND has); ensures the result is not NaN, >= 0 and <= 2^32 (so that every candidate's distance is below f64::MAX and the search always selects one; the tight bound <= 1 does not finish for large counts)
+#[kani::proof_for_contract(NoComboState::accuracy)]
+fn u7_osu_nocombo_accuracy_contract() {
+    let s = NoComboState {
+        n300: kani::any(),
+        n100: kani::any(),
+        n50: kani::any(),
+        misses: kani::any(),
+        large_tick_hits: kani::any(),
+        small_tick_hits: kani::any(),
+        slider_end_hits: kani::any(),
+    };
+    let _ = s.accuracy(any_origin());
+}
+
+fn small_attrs(cap: u32) -> OsuDifficultyAttributes {
+    let a = any_attrs();
+    kani::assume(a.n_circles <= cap && a.n_sliders <= cap && a.n_spinners <= cap && a.n_large_ticks <= cap);
+    a
+}
+
+fn acc_arm(g300: bool, g100: bool, g50: bool, cap: u32) {
+    let a = small_attrs(cap);
+    let acc: f64 = kani::any();
+    kani::assume(acc >= 0.0 && acc <= 1.0);
+    let mut b = any_builder(&a, Some(acc));
+    b.n300 = if g300 { Some(kani::any()) } else { None };
+    b.n100 = if g100 { Some(kani::any()) } else { None };
+    b.n50 = if g50 { Some(kani::any()) } else { None };
+    let pre = b.clone();
+    match b.generate_state() {
+        Ok(s) => {
+            post(&pre, &a, &s, &b);
+            // with accuracy every arm fills the remainder
+            let passed = pre.difficulty.get_passed_objects();
+            let n = if (a.n_objects() as usize) < passed { a.n_objects() } else { passed as u32 };
+            let given: u64 = pre.n300.unwrap_or(0) as u64 + pre.n100.unwrap_or(0) as u64 + pre.n50.unwrap_or(0) as u64 + pre.misses.unwrap_or(0) as u64;
+            if given <= n as u64 {
+                assert!(s.n300 + s.n100 + s.n50 + s.misses == n, "C12.3 hit results add up to objects (accuracy arm)");
+            }
+            if let (Some(r), false) = (pre.n300, g100 && g50) {
+                assert!(s.n300 == cmp::min(r, n - s.misses), "C12.2 provided n300 kept (accuracy arm)");
+            }
+        }
+        Err(_) => assert!(false, "C12 generate_state on attributes cannot fail"),
+    }
+}
+
+macro_rules! arm {
+    ($name:ident, $a:expr, $b:expr, $c:expr, $cap:expr) => {
+        #[kani::proof]
+        #[kani::unwind(5)]
+        #[kani::stub_verified(NoComboState::accuracy)]
+        fn $name() {
+            acc_arm($a, $b, $c, $cap);
+        }
+    };
+}
+
+//@ obl: id=U7.osu.genstate.acc_given2 harness=u7_osu_genstate_acc_given2 props=C12 tier=quick kind=proof budget=900
+//@ fns: OsuPerformance::generate_state (accuracy arms with two or three results given)
+//@ bound: loop-free arms; attribute counts <= 2^20; accuracy any value in [0,1]
+//@ clause: osu generate_state with accuracy and at least two of n300/n100/n50 given: C12 clauses (1)-(4),(6)
+#[kani::proof]
+#[kani::unwind(5)]
+fn u7_osu_genstate_acc_given2() {
+    let which: u8 = kani::any();
+    match which % 4 {
+        0 => acc_arm(true, true, true, CAP),
+        1 => acc_arm(true, true, false, CAP),
+        2 => acc_arm(true, false, true, CAP),
+        _ => acc_arm(false, true, true, CAP),
+    }
+}
+
+//@ obl: id=U7.osu.genstate.acc_300 harness=u7_osu_genstate_acc_300 stubs=yes props=C12 tier=quick kind=proof budget=900
+//@ fns: OsuPerformance::generate_state (search arm: n300 given)
+//@ bound: attribute counts <= 2^20 (A-BOUND); accuracy any value in [0,1]; every u32 value of the optional fields; search loop floor..=ceil closed by unwind 5, certified by the unwinding assertions; the accuracy helper is used through its verified contract (stub_verified)
+//@ clause: osu generate_state with accuracy and only n300 given: C12 clauses (1)-(4),(6); results add up to the objects
+arm!(u7_osu_genstate_acc_300, true, false, false, CAP);
+//@ obl: id=U7.osu.genstate.acc_100 harness=u7_osu_genstate_acc_100 stubs=yes props=C12 tier=quick kind=proof budget=900
+//@ fns: OsuPerformance::generate_state (search arm: n100 given)
+//@ bound: as U7.osu.genstate.acc_300
+//@ clause: osu generate_state with accuracy and only n100 given: C12 clauses
+arm!(u7_osu_genstate_acc_100, false, true, false, CAP);
+//@ obl: id=U7.osu.genstate.acc_50 harness=u7_osu_genstate_acc_50 stubs=yes props=C12 tier=quick kind=proof budget=900
+//@ fns: OsuPerformance::generate_state (search arm: n50 given)
+//@ bound: as U7.osu.genstate.acc_300
+//@ clause: osu generate_state with accuracy and only n50 given: C12 clauses
+arm!(u7_osu_genstate_acc_50, false, false, true, CAP);
+//@ obl: id=U7.osu.genstate.acc_none harness=u7_osu_genstate_acc_none stubs=yes props=C12 tier=quick kind=bounded budget=900
+//@ fns: OsuPerformance::generate_state (search arm: no result given, incl. the priority shifting)
+//@ bound: bounded: attribute counts <= 20 (the full domain does not finish within 15 min for the nested windows); otherwise as U7.osu.genstate.acc_300 (nested floor..=ceil loops, unwind 5 certified)
+//@ clause: osu generate_state with accuracy and no hit result given: C12 clauses; the priority shifting keeps the sum
+arm!(u7_osu_genstate_acc_none, false, false, false, 20);
